@@ -19,7 +19,12 @@ THEOREMS = [f"NumbersModel.Props.C12.{t}" for t in (
     "consistent_init", "merge_picture", "merge_step", "merge_picture_list", "merge_ranges_exact", "mergemap_roundtrip",
     "mergemap_roundtrip_needs_bound", "pack_bound_is_sharp", "open_eq_reloaded", "consistent_write",
     "consistent_edit", "edit_values", "move_arithmetic_is_spec", "shift_spec_sound", "shift_spec_insert_cells", "shift_spec_delete_cells",
-    "history_consistent", "history_open_eq_reloaded")]
+    "history_consistent", "history_open_eq_reloaded")] + [
+    # the packing clauses over the loop bodies py2lean regenerates from model.py on every run
+    "NumbersModel.Props.C12.Src.src_mergemap_roundtrip", "NumbersModel.Props.C12.Src.src_pack_rejects_negative",
+    "NumbersModel.Props.C12.Src.src_load_range", "NumbersModel.Translated.merge_pack_eq_model",
+    "NumbersModel.Translated.merge_unpack_eq_model"]
+TRANSLATED_GROUPS = ("Merge",)
 PARTIAL = {
     "open_eq_reloaded": "proved for consistent tables - by history_consistent: after any history of merges, writes outside "
     "placeholders and row/column insertions/deletions anywhere (no value written into a placeholder: known finding "
@@ -50,7 +55,13 @@ MANIFEST = {
             "history of merges, writes outside placeholders and row/column edits the open document and the reopened file "
             "show the same picture. Tied to the code by lock-step scenarios on the real API compared cell by cell (class, "
             "value, is_merged, size, rect, merge_ranges) open vs model vs reopened after every step, plus an independent "
-            "picture oracle (plain value grid + rectangle list that follows the surviving rows/columns of each rectangle).",
+            "picture oracle (plain value grid + rectangle list that follows the surviving rows/columns of each rectangle). "
+            "The packing arithmetic itself (the loop body of recalculate_merged_cells: col << 16 | row and ncols << 16 | nrows "
+            "into uint32 fields; the loop body of calculate_merge_cell_ranges up to the fill loops: >> 16, & 0xFFFF, the two "
+            "ends) is additionally TRANSLATED from model.py on every run (harness/py2lean.py -> Gen/TrMerge.lean), proved equal "
+            "to pack32 / loadRange for all ints (Lemmas/TrMerge.lean) and the round-trip clause is restated over it "
+            "(Props.C12.Src.src_*); the translated bodies are run against the real methods on harness-made anchors and "
+            "merge-region objects (trdriver).",
     "note": "fixes/C12-merge-placeholders.patch repairs the placeholder loops; fixes/C12-merge-map-shift.patch makes the four "
             "row/column edits keep the merge map and the cells' merge state in step (Table._move_merges); "
             "fixes/C12-stale-merge-owner-records.patch makes save drop the merge ranges a Numbers-written table was loaded with "
@@ -58,7 +69,8 @@ MANIFEST = {
             "listed as known findings, not fixed: a value written into a placeholder is visible on the open document and "
             "lost on reload; origins with row >= 65536 do not survive save.",
     "technique": "Lean 4 proof (loop invariants over the (data, map) pair, extensional map reasoning, bit-packing "
-                 "round trip, interval arithmetic of the rectangle specification, induction over histories) + lock-step "
+                 "round trip, interval arithmetic of the rectangle specification, induction over histories; packing arithmetic "
+                 "proved equal to its translation from the Python source) + lock-step "
                  "differential correspondence + picture oracle",
 }
 ASSUMPTIONS = [
@@ -820,10 +832,86 @@ def fixture_edits(ctx: Ctx):
                               f"{name} sheet {si} table {ti}: merges {where['merges']}, then {op}: the open document reports "
                               f"{want_ranges}, the reopened file {got2[0]}"
                               + ("" if got2[1] == want_cells or got2[0] != want_ranges else " (cell states differ)"), where)
+def translated_source_stream(ctx: Ctx):
+    """The packing loop of recalculate_merged_cells and the unpacking loop of calculate_merge_cell_ranges run on a real
+    document whose merge map / merge-region object is set up by the harness (arbitrary anchors, arbitrary stored uint32
+    values), vs the loop bodies py2lean translated from model.py."""
+    import common
+    from numbers_parser import Document
+    from numbers_parser.generated import TSTArchives_pb2 as TSTArchives
+    from numbers_parser.model import MergeCells, _NumbersModel
+    rng = ctx.rng
+    doc = Document(num_header_rows=0, num_header_cols=0, num_rows=2, num_cols=2)
+    table = doc.sheets[0].tables[0]
+    model, tid = table._model, table._table_id
+    model.merge_cells(tid)      # prime the @cache of calculate_merge_cell_ranges (nothing stored in a new document)
+    bds = model.objects[tid].base_data_store
+
+    edge = [0, 1, 2, 255, 256, 65534, 65535, 65536, 65537, 70000, 2**31, -1, -2, -65536]
+    quads = [(r, c, 1, 1) for r in edge for c in edge] + [(1, 1, h, w) for h in edge for w in edge] + \
+        [tuple(rng.choice(edge + [rng.randrange(0, 65536)]) for _ in range(4)) for _ in range(150 if ctx.quick else 3000)]
+    req, out = [], []
+    for (r, c, h, w) in quads:
+        mc = MergeCells()
+        mc.add_anchor(r, c, (h, w))
+        model._merge_cells[tid] = mc
+        req.append(f"merge pack {r} {c} {h} {w}")
+        try:
+            model.recalculate_merged_cells(tid)
+            cr = model.objects[bds.merge_region_map.identifier].cell_range
+            o, sz = cr[0].origin.packedData, cr[0].size.packedData
+            out.append(f"ok {o} {sz}")
+            # the clause itself, on the real code: what was stored reads back as the anchor (below 2^16)
+            if 0 <= min(r, c, h, w) and max(r, c, h, w) < 65536 and ((o >> 16, o & 0xFFFF), (sz >> 16, sz & 0xFFFF)) != ((c, r), (w, h)):
+                ctx.violation("merge-pack-fields", f"anchor ({r},{c}) size ({h},{w}) stored as origin {o}, size {sz}",
+                              {"anchor": [r, c], "size": [h, w]})
+        except Exception as e:  # noqa: BLE001
+            out.append("err " + exc_name(e))
+    model._merge_cells[tid] = MergeCells()
+    common.translated_only_stream(ctx, "recalculate_merged_cells on harness-made anchors (fields at 0 / 2^16 / 2^31 / negative) "
+                                       "vs the loop body translated from the source", req, out)
+
+    pairs = []
+    for r, c in [(0, 0), (1, 2), (65535, 0), (0, 65535), (65535, 65535), (300, 7)] + \
+            [(rng.randrange(65536), rng.randrange(65536)) for _ in range(40 if ctx.quick else 1000)]:
+        for h, w in ((1, 1), (2, 1), (1, 3), (2, 2), (0, 0), (0, 2), (3, 0)):
+            pairs.append((c << 16 | r, w << 16 | h))
+    req, out = [], []
+    raw = getattr(_NumbersModel.calculate_merge_cell_ranges, "__wrapped__", None)
+    for o, sz in pairs:
+        mm_id, mm = model.objects.create_object_from_dict("CalculationEngine", {}, TSTArchives.MergeRegionMapArchive)
+        mm.cell_range.append(TSTArchives.CellRange(origin=TSTArchives.CellID(packedData=o), size=TSTArchives.TableSize(packedData=sz)))
+        model.set_reference(bds.merge_region_map, mm_id)
+        model._merge_cells[tid] = MergeCells()
+        req.append(f"merge unpack {o} {sz}")
+        try:
+            if raw is None:
+                raise RuntimeError("calculate_merge_cell_ranges is no longer a @cache-wrapped method")
+            raw(model, tid)
+            mc = model._merge_cells[tid]
+            (r0, c0), = mc.merge_cells()
+            nr, nc = mc.size((r0, c0))
+            rects = {mc.rect(k) for k in list(mc._references) if mc.is_merge_reference(k)}
+            if len(rects) > 1:
+                out.append(f"several-rects {sorted(rects)}")
+                continue
+            r1, c1 = (next(iter(rects))[2:] if rects else (r0 + nr - 1, c0 + nc - 1))   # no reference cell: derived
+            out.append(f"ok {r0} {c0} {r1} {c1} {nr} {nc}")
+            if rects and next(iter(rects))[:2] != (r0, c0):
+                out[-1] = f"rect-origin-differs {next(iter(rects))}"
+            if (r0, c0, nr, nc) != (o & 0xFFFF, o >> 16, sz & 0xFFFF, sz >> 16):
+                ctx.violation("merge-unpack-fields", f"stored origin {o}, size {sz} read as anchor ({r0},{c0}) size ({nr},{nc})",
+                              {"origin": o, "size": sz})
+        except Exception as e:  # noqa: BLE001
+            out.append("err " + exc_name(e))
+    common.translated_only_stream(ctx, "calculate_merge_cell_ranges on harness-made merge-region objects vs the loop body "
+                                       "translated from the source", req, out)
+    common.python_operator_stream(ctx)
 
 
 def run(ctx: Ctx):
     rng = ctx.rng
+    translated_source_stream(ctx)
     with _pool() as pool:
         # --- corpus: the examples of DESIGN.md ----------------------------------------------------
         corpus = [
